@@ -30,6 +30,7 @@ type Op struct {
 	S string `json:"s,omitempty"`
 	T string `json:"t,omitempty"`
 	L []int  `json:"l,omitempty"`
+	N int    `json:"n,omitempty"` // repeat count: the operation is issued N times in a row
 }
 
 type EcoPool struct {
